@@ -157,3 +157,115 @@ func (r *Recorder) StoredLive(target string) map[string]*configapi.PathValue {
 	}
 	return out
 }
+
+// ParseTextPath parses the textual path form used as key of the stored value maps ("/a/b[k=v][k2=v2]/c") into a
+// structured path. Written independently of /repo's parser; escapes are not used by the synthetic model.
+func ParseTextPath(t string) (Path, error) {
+	var out Path
+	i := 0
+	for i < len(t) {
+		if t[i] != '/' {
+			return nil, fmt.Errorf("path %q: expected '/' at %d", t, i)
+		}
+		i++
+		j := i
+		for j < len(t) && t[j] != '/' && t[j] != '[' {
+			j++
+		}
+		pe := PElem{Name: t[i:j]}
+		if pe.Name == "" {
+			return nil, fmt.Errorf("path %q: empty element", t)
+		}
+		for j < len(t) && t[j] == '[' {
+			k := j + 1
+			for k < len(t) && t[k] != '=' {
+				k++
+			}
+			e := k + 1
+			for e < len(t) && t[e] != ']' {
+				e++
+			}
+			if k >= len(t) || e >= len(t) {
+				return nil, fmt.Errorf("path %q: bad key", t)
+			}
+			pe.Keys = append(pe.Keys, [2]string{t[j+1 : k], t[k+1 : e]})
+			j = e + 1
+		}
+		sort.Slice(pe.Keys, func(a, b int) bool { return pe.Keys[a][0] < pe.Keys[b][0] })
+		out = append(out, pe)
+		i = j
+	}
+	return out, nil
+}
+
+// TypedValueCanon renders a stored typed value canonically (same alphabet as GnmiValueCanon).
+func TypedValueCanon(v *configapi.TypedValue) string {
+	switch v.Type {
+	case configapi.ValueType_STRING:
+		return "s:" + string(v.Bytes)
+	case configapi.ValueType_BOOL:
+		return fmt.Sprintf("b:%v", (*configapi.TypedBool)(v).Bool())
+	case configapi.ValueType_UINT:
+		return fmt.Sprintf("u:%d", (*configapi.TypedUint)(v).Uint())
+	case configapi.ValueType_INT:
+		return fmt.Sprintf("i:%d", (*configapi.TypedInt)(v).Int())
+	case configapi.ValueType_EMPTY:
+		return "empty"
+	}
+	return fmt.Sprintf("?%s:%x", v.Type, v.Bytes)
+}
+
+// StoredTree decodes the live (non-deleted, not beneath a tombstone at element boundaries) entries of a stored value map.
+func StoredTree(vals map[string]*configapi.PathValue) (Tree, error) {
+	t := Tree{}
+	var tombs []Path
+	for k, pv := range vals {
+		if pv.Deleted {
+			p, err := ParseTextPath(k)
+			if err != nil {
+				return nil, err
+			}
+			tombs = append(tombs, p)
+		}
+	}
+	for k, pv := range vals {
+		if pv.Deleted {
+			continue
+		}
+		p, err := ParseTextPath(k)
+		if err != nil {
+			return nil, err
+		}
+		hidden := false
+		for _, tb := range tombs {
+			if p.HasPrefix(tb) {
+				hidden = true
+			}
+		}
+		if !hidden {
+			t.Set(p, TypedValueCanon(&pv.Value))
+		}
+	}
+	return t, nil
+}
+
+// CompareTargets issues whole-tree Gets (PROTO and JSON) for every target and compares them with the model.
+func (s *Sys) CompareTargets(mod *Model, prop, oracle string) {
+	var ops []ClientOp
+	for _, t := range s.Plan.Knobs.Targets {
+		ops = append(ops, ClientOp{Kind: "get", Target: t}, ClientOp{Kind: "get", Target: t, JSON: true})
+	}
+	for _, c := range s.RunProbes(ops) {
+		cfg := mod.Cfg[c.Op.Target]
+		if cfg == nil {
+			cfg = Tree{}
+		}
+		if shape, msg := CompareGet(c, cfg); shape != "" {
+			s.Report(prop, oracle, shape, msg)
+			return
+		}
+	}
+}
+
+// PredictedFold folds the log with the model's own verdicts.
+func (s *Sys) PredictedFold() *Model { return Fold(s.ModelLog(), nil) }
